@@ -6,4 +6,4 @@ def run(ctx):
     run_kernel(ctx, "C12", [
         dict(profile="c12", kind="poly", traces=(96, 1600), ops=40, queries=10),
         dict(profile="c12", kind="tet", traces=(32, 400), ops=40, queries=10),
-    ], level_when_proved="other")
+    ], level_when_proved="other", extra_props=("C01Reach",))
